@@ -136,7 +136,7 @@ def check_valid(pc, formula, want_model=True, timeout_ms=None, second_backend=Tr
             keep += sym.length_axioms(fs)
             keep += sym.structural_axioms(fs + keep)
             s0 = z3.Solver()
-            s0.set('timeout', 3000)
+            s0.set('timeout', 5000)
             s0.add(*fs)
             s0.add(*keep)
             if s0.check() == z3.unsat:
@@ -146,12 +146,15 @@ def check_valid(pc, formula, want_model=True, timeout_ms=None, second_backend=Tr
             gf = _func_names(neg) | set(n for a in keep for n in _func_names(a))
             sliced = [f for f in pc if _func_names(f) <= gf]
             s1 = z3.Solver()
-            s1.set('timeout', 3000)
+            s1.set('timeout', 5000)
             s1.add(*sliced)
             s1.add(neg)
             s1.add(*keep)
             if s1.check() == z3.unsat:
                 return 'proved', 'z3', time.time() - t0, None, s1
+            # z3's sequence solver is unstable on identical input; cvc5 decides the small sliced query reliably
+            if second_backend and run_cvc5(s1.to_smt2().replace('(check-sat)', ''), 10) == 'unsat':
+                return 'proved', 'cvc5', time.time() - t0, None, s1
     except z3.Z3Exception:
         pass
     for depth in (1, 2, 3):
@@ -159,7 +162,7 @@ def check_valid(pc, formula, want_model=True, timeout_ms=None, second_backend=Tr
             ax0 = sym.instantiate_axioms(fs, rounds=depth) + sym.length_axioms(fs)
             ax0 += sym.structural_axioms(fs + ax0)
             s0 = z3.Solver()
-            s0.set('timeout', 2000)
+            s0.set('timeout', 4000)
             s0.add(*fs)
             s0.add(*ax0)
             if s0.check() == z3.unsat:
